@@ -52,6 +52,7 @@ HANDLED = (b"version", b"verack", b"ping")     # the property's "handled automat
 GRANT_TIMEOUT = 0.5
 BLOCKING_TIMEOUT = 0.004
 BLOCKING_SWEEP_LIMIT = 120
+EXTRA_ROUNDS_SECONDS = 100.0
 _TMO = {"cur": GRANT_TIMEOUT}
 
 
@@ -181,14 +182,21 @@ for _name in ("__len__", "__getitem__", "__contains__", "count", "index", "copy"
 
 
 class _PointIter:
+    """iterator over the shared deque with a scheduling point before each of its first steps: that is enough for
+    another thread's append to land inside the iteration (the next step then raises RuntimeError), and keeps a
+    variant that scans a long queue on every message affordable"""
+
     def __init__(self, it):
         self.it = it
+        self.points = 3
 
     def __iter__(self):
         return self
 
     def __next__(self):
-        _pt("iter")
+        if self.points:
+            self.points -= 1
+            _pt("iter")
         return next(self.it)
 
 
@@ -341,10 +349,17 @@ class _Run:
             for _ in range(rounds):
                 for t in range(self.n):
                     b.grant(t)
-            while not all(b.done) and extra < 200:
+            # a variant with more scheduling points per message than the model has steps (extra reads of the queue,
+            # locks, ...) needs more grants: go on round robin while there is progress (bounded by wall time)
+            import time
+            deadline = time.time() + EXTRA_ROUNDS_SECONDS
+            stalled = 0
+            while not all(b.done) and stalled < 50 and time.time() < deadline:
                 extra += 1
+                before = len(b.trace)
                 for t in range(self.n):
                     b.grant(t)
+                stalled = stalled + 1 if len(b.trace) == before and not all(b.done) else 0
         finally:
             self.cleanup()
         return extra
@@ -370,16 +385,19 @@ class _Run:
         b = self.baton
         b.free = True
         pending = [t for t in range(self.n) if not b.done[t]]
-        for t in pending:
-            self.node._peer_threads[t].exit_event.set()
+        for t in pending:                                     # run on without the baton
             try:
                 b.go[t].release()
             except RuntimeError:
                 pass
         for t in pending:
             b.back[t].acquire(timeout=2.0)
-            if not b.done[t] and self.errors[t] is None:
-                self.errors[t] = "harness: thread did not finish (deadlock?)"
+        for t in pending:
+            if not b.done[t]:                                 # still not there: ask the loop to end
+                self.node._peer_threads[t].exit_event.set()
+                b.back[t].acquire(timeout=2.0)
+                if self.errors[t] is None:
+                    self.errors[t] = "harness: thread did not finish in time (deadlock?)"
         if _BATON[0] is b:
             _BATON[0] = None
 
@@ -698,6 +716,9 @@ def _cfg_of(c):
     return c["args"][n] if len(c["args"]) > n else None
 
 
+_BIG_SHRINKS = {"left": 40}      # evaluations of large shrink candidates are expensive: a budget per check process
+
+
 def _blocks(progs):
     """programs with a block of one thread's messages removed (halves ... sixteenths)"""
     for t in range(len(progs)):
@@ -705,7 +726,8 @@ def _blocks(progs):
         for parts in (2, 4, 16):
             size = max(1, L // parts)
             for start in range(0, L, size):
-                if size < L:
+                if size < L and _BIG_SHRINKS["left"] > 0:
+                    _BIG_SHRINKS["left"] -= 1
                     p2 = [list(p) for p in progs]
                     del p2[t][start:start + size]
                     yield p2
